@@ -521,7 +521,9 @@ func lexInsideAction(l *lexer) stateFn {
 			l.emit(itemUnderscore)
 			return lexInsideAction
 		}
-		fallthrough // no space? must be the start of an identifier
+		// no space? must be the start of an identifier
+		// (no backup() here: l.width is now the width of the peeked rune, not of '_')
+		return lexIdentifier
 	case isAlphaNumeric(r):
 		l.backup()
 		return lexIdentifier
